@@ -333,6 +333,13 @@ class Program:
     # ------------------------------------------------------------------
     def func(self, qual):
         f = self.funcs.get(qual)
+        if f is None and "." in qual:
+            # a method named through a class that only inherits it (e.g. after a pull-up into the base class):
+            # resolve it the way Python does, along the MRO
+            cq, name = qual.rsplit(".", 1)
+            c = self.classes.get(cq)
+            if c is not None:
+                f = c.lookup(name)
         if f is None:
             raise AnalysisError("anchor function %s not found in %s" % (qual, self.root))
         return f
